@@ -87,6 +87,7 @@ typedef struct vp_arrcur_s {
   vp_arr_t *arr;
   int pos;                                 /* valid iff 0 <= pos < arr->n */
   int moves;                               /* first/last/seek/next/prev calls */
+  int *in_use;                             /* slot flag to release in clear(), or NULL */
 } vp_arrcur_t;
 
 void vp_arr_init(vp_arr_t *a, int order);
@@ -104,6 +105,28 @@ int vp_arr_sorted(const vp_arr_t *a);
 
 ldb_iter_t *vp_arriter_create(vp_arr_t *a,
                               const struct ldb_comparator_s *cmp);
+
+/* For iterators that the unit creates and destroys REPEATEDLY (the block
+ * function of the two-level iterator): under CBMC the iterator lives in the
+ * caller's static slot instead of two fresh heap objects per call site and
+ * loop unwinding (which gives the unit's data_iter pointer a value set of
+ * dozens of objects; symex of a 3-block query did not finish in 5 min).
+ * The slot must not be in use (a->live == 0 for the array it serves is the
+ * usual discipline: one slot per array); reuse while in use trips a
+ * "vp-model:" assertion.  Needs an ldb_free that ignores non-heap objects
+ * (kit/vp_alloc_c07.c).  Under VP_REPLAY this is plain vp_arriter_create. */
+typedef struct vp_arrslot_s {
+  ldb_iter_t it;
+  vp_arrcur_t cur;
+  int in_use;
+} vp_arrslot_t;
+
+ldb_iter_t *vp_arriter_create_in(vp_arr_t *a,
+                                 const struct ldb_comparator_s *cmp,
+                                 vp_arrslot_t *slot);
+/* optional model of ldb_iter_destroy for vp_arriters, see vp_arriter.c */
+void vp_arr_iter_destroy(ldb_iter_t *iter);
+
 /* current index of a vp_arriter (or -1), for monitors */
 int vp_arriter_pos(const ldb_iter_t *it);
 /* put the cursor somewhere (p outside 0..n-1 => invalid) */
